@@ -268,10 +268,10 @@ def build_cases(seed, tier):
     # the dependency's own type parameter named in another parameter or in the return type (F24)
     cases.append(CCase("pub TrS0", "pub fn s<D: A>(deps: &D, other: &D) -> i32 { unimplemented!() }", "F24", "elided"))
     cases.append(CCase("pub TrS1", "pub fn s<D: A + Clone>(deps: &D) -> D { unimplemented!() }", "F24", "elided"))
-    # a lifetime parameter of the function as a bound of the dependency (F25)
-    cases.append(CCase("pub TrL0", "pub fn l<'x, D: A + 'x>(deps: &'x D, t: &'x i32) -> &'x i32 { unimplemented!() }", "F25", "elided"))
-    cases.append(CCase("pub TrL1", "pub fn l<'x, D: A>(deps: &'x D, t: &'x i32) -> &'x i32 where D: 'x { unimplemented!() }", "F25", "elided"))
-    cases.append(CCase("pub TrL2", "pub fn l<'x>(deps: &'x (impl A + 'x), t: &'x i32) -> &'x i32 { unimplemented!() }", "F25", "elided"))
+    # a lifetime parameter of the function as a bound of the dependency (F25, repaired)
+    cases.append(CCase("pub TrL0", "pub fn l<'x, D: A + 'x>(deps: &'x D, t: &'x i32) -> &'x i32 { unimplemented!() }", None, "elided"))
+    cases.append(CCase("pub TrL1", "pub fn l<'x, D: A>(deps: &'x D, t: &'x i32) -> &'x i32 where D: 'x { unimplemented!() }", None, "elided"))
+    cases.append(CCase("pub TrL2", "pub fn l<'x>(deps: &'x (impl A + 'x), t: &'x i32) -> &'x i32 { unimplemented!() }", None, "elided"))
     cases.append(CCase("pub TrL3", "pub fn l<'x, D: A + 'static>(deps: &'x D, t: &'x i32) -> &'x i32 { unimplemented!() }", None, "elided"))
     cases.append(CCase("pub ME, no_deps", "pub mod m { use super::*; pub fn e0(x: &str) -> &str { unimplemented!() } pub fn e1(a: i32) -> i32 { a } }", "F22", "elided"))
     # F21: raw identifiers next to generated / function names
